@@ -22,6 +22,16 @@ def _(x: float):
     return 1.0
 
 
+@sign.register
+def _(x: int):
+    return sign(float(x))
+
+
+@sign.register
+def _(x: np.integer):
+    return sign(float(x))
+
+
 def interval_I(x: float) -> tuple[float, float]:
     """
     :return: left or right interval depending on the sign of x
